@@ -5,7 +5,105 @@ from contracts.lemmas import LEMMA_FUNCS
 
 MODULE = "dask/array/overlap.py"
 
-CONTRACTS = [
+Depth = T.Union("Depth", {"int": T.Int, "pair": T.Tup(T.Int, T.Int)}, classes={"tuple": ["pair"], "Integral": ["int"]})
+SSI = T.Seq(T.Seq(T.Int))
+
+_LEFT = "(axes[i][0] if isinstance(axes[i], tuple) else axes[i])"
+
+overlap_internal_chunks = Contract(
+    MODULE, "_overlap_internal_chunks",
+    params={"original_chunks": SSI, "axes": T.Map(T.Int, Depth)},
+    locals={"chunks": SSI, "left": T.Seq(T.Int), "right": T.Seq(T.Int), "mid": T.Seq(T.Int), "depth": Depth, "left_depth": T.Int, "right_depth": T.Int},
+    returns=SSI,
+    requires=[("dims", "len(original_chunks) >= 0"), ("nonempty-axes", "all(len(original_chunks[a]) >= 1 for a in range(len(original_chunks)))")],
+    ensures=[
+        ("one-entry-per-axis", "len(result) == len(original_chunks)"),
+        ("C26-same-number-of-blocks", "all(len(result[a]) == len(original_chunks[a]) for a in range(len(result)))"),
+        ("C26-single-block-unchanged", "all(implies(len(original_chunks[a]) == 1, result[a][0] == original_chunks[a][0]) for a in range(len(result)))"),
+        ("C26-first-block-grows-by-right-depth", "all(implies(len(original_chunks[a]) >= 2, result[a][0] == original_chunks[a][0] + rdepth(axes, a)) for a in range(len(result)))"),
+        ("C26-last-block-grows-by-left-depth", "all(implies(len(original_chunks[a]) >= 2, result[a][len(result[a]) - 1] == original_chunks[a][len(original_chunks[a]) - 1] + ldepth(axes, a)) for a in range(len(result)))"),
+        ("C26-interior-blocks-grow-by-both", "all(implies(1 <= j and j < len(original_chunks[a]) - 1, result[a][j] == original_chunks[a][j] + ldepth(axes, a) + rdepth(axes, a)) for a in range(len(result)) for j in range(len(original_chunks[a])))"),
+    ],
+    loops={
+        0: dict(index="a0", invariant=[
+            ("done", "len(chunks) == a0 and a0 >= 0"),
+            ("prefix", "all(len(chunks[a]) == len(original_chunks[a]) for a in range(a0))"),
+            ("single", "all(implies(len(original_chunks[a]) == 1, chunks[a][0] == original_chunks[a][0]) for a in range(a0))"),
+            ("first", "all(implies(len(original_chunks[a]) >= 2, chunks[a][0] == original_chunks[a][0] + rdepth(axes, a)) for a in range(a0))"),
+            ("last", "all(implies(len(original_chunks[a]) >= 2, chunks[a][len(chunks[a]) - 1] == original_chunks[a][len(original_chunks[a]) - 1] + ldepth(axes, a)) for a in range(a0))"),
+            ("mid", "all(implies(1 <= j and j < len(original_chunks[a]) - 1, chunks[a][j] == original_chunks[a][j] + ldepth(axes, a) + rdepth(axes, a)) for a in range(a0) for j in range(len(original_chunks[a])))"),
+        ]),
+        1: dict(index="m0", seq="inner", invariant=[
+            ("mid-len", "len(mid) == m0 and m0 >= 0"),
+            ("mid-val", "all(mid[q] == inner[q] + left_depth + right_depth for q in range(m0))"),
+        ]),
+    },
+)
+
+import ast as _ast
+import os as _os
+
+
+def trim_chunks_fragment(body):
+    """Fragment of trim_internal: the statements from `olist = []` to `chunks = tuple(olist)` (the chunk arithmetic),
+    followed by a synthesised `return chunks`.  Dropped: coerce_boundary and the map_blocks call (NumPy level)."""
+    start = next(i for i, s_ in enumerate(body) if _ast.unparse(s_) == "olist = []")
+    end = next(i for i, s_ in enumerate(body) if _ast.unparse(s_) == "chunks = tuple(olist)")
+    frag = list(body[start:end + 1])
+    r = _ast.Return(value=_ast.Name(id="chunks", ctx=_ast.Load()))
+    _ast.copy_location(r, body[end])
+    frag.append(_ast.fix_missing_locations(r))
+    return frag
+
+
+ArrX = T.Rec("ArrayLike", {"chunks": SSI})
+_TRIMMED = "(x.chunks[a][j] - (ldepth(axes, a) if j != 0 else 0) - (rdepth(axes, a) if j != len(x.chunks[a]) - 1 else 0))"
+_TRIMMED_B = "(x.chunks[a][j] - ldepth(axes, a) - rdepth(axes, a))"
+
+trim_chunks = Contract(
+    MODULE, "trim_internal",
+    fragment=trim_chunks_fragment,
+    params={"x": ArrX, "axes": T.Map(T.Int, Depth), "boundary": T.Map(T.Int, T.Str)},
+    locals={"olist": SSI, "ilist": T.Seq(T.Int), "chunks": SSI, "overlap": Depth, "d": T.Int},
+    returns=SSI,
+    requires=[("dims", "len(x.chunks) >= 0 and all(len(x.chunks[a]) >= 0 for a in range(len(x.chunks)))")],
+    ensures=[
+        ("shape", "len(result) == len(x.chunks) and all(len(result[a]) == len(x.chunks[a]) for a in range(len(result)))"),
+        ("C26-trim-without-boundary-removes-exactly-the-shared-depths",
+         f"all(implies(not has_boundary(boundary, a), result[a][j] == {_TRIMMED}) for a in range(len(result)) for j in range(len(x.chunks[a])))"),
+        ("C26-trim-with-boundary-removes-both-depths-everywhere",
+         f"all(implies(has_boundary(boundary, a), result[a][j] == {_TRIMMED_B}) for a in range(len(result)) for j in range(len(x.chunks[a])))"),
+    ],
+    loops={
+        0: dict(index="a0", invariant=[
+            ("done", "len(olist) == a0 and a0 >= 0"),
+            ("lens", "all(len(olist[a]) == len(x.chunks[a]) for a in range(a0))"),
+            ("none", f"all(implies(not has_boundary(boundary, a), olist[a][j] == {_TRIMMED}) for a in range(a0) for j in range(len(x.chunks[a])))"),
+            ("bdy", f"all(implies(has_boundary(boundary, a), olist[a][j] == {_TRIMMED_B}) for a in range(a0) for j in range(len(x.chunks[a])))"),
+        ]),
+        1: dict(index="j0", invariant=[
+            ("ilen", "len(ilist) == j0 and j0 >= 0"),
+            ("inone", "implies(not has_boundary(boundary, i), all(ilist[j] == (x.chunks[i][j] - (ldepth(axes, i) if j != 0 else 0) - (rdepth(axes, i) if j != len(x.chunks[i]) - 1 else 0)) for j in range(j0)))"),
+            ("ibdy", "implies(has_boundary(boundary, i), all(ilist[j] == x.chunks[i][j] - ldepth(axes, i) - rdepth(axes, i) for j in range(j0)))"),
+        ]),
+    },
+    note="fragment of trim_internal (chunk arithmetic only)",
+)
+
+_LEMO = _os.path.join(_os.path.dirname(_os.path.dirname(_os.path.abspath(__file__))), "lemmas", "overlap_clients.py")
+
+overlap_trim_identity = Contract(
+    _LEMO, "client_overlap_then_trim_is_identity",
+    params={"chunks": SSI, "axes": T.Map(T.Int, Depth), "boundary": T.Map(T.Int, T.Str), "x": ArrX},
+    returns=SSI,
+    requires=[("dims", "len(chunks) >= 0"), ("nonempty-axes", "all(len(chunks[a]) >= 1 for a in range(len(chunks)))"),
+              ("no-boundary", "all(not has_boundary(boundary, a) for a in range(len(chunks)))")],
+    ensures=[("C26-overlapping-then-trimming-the-chunks-is-the-identity",
+              "len(result) == len(chunks) and all(len(result[a]) == len(chunks[a]) for a in range(len(chunks))) and all(result[a][j] == chunks[a][j] for a in range(len(chunks)) for j in range(len(chunks[a])))")],
+    note="client program: calls the two real functions only through their contracts",
+)
+
+CONTRACTS = [overlap_internal_chunks, trim_chunks, overlap_trim_identity,
     Contract(
         MODULE,
         "ensure_minimum_chunksize",
@@ -43,5 +141,37 @@ CONTRACTS = [
 ]
 
 
+def spec_ldepth(eng, st, axes, a):
+    import z3
+    from vf.core import SV
+    mt = axes.ty
+    d = z3.If(z3.Select(mt.dom(axes.t), a.t), z3.Select(mt.valarr(axes.t), a.t), Depth.inj("int", z3.IntVal(0)))
+    pair = Depth.proj("pair", d)
+    return SV(z3.If(Depth.is_("pair", d), T.Tup(T.Int, T.Int).get(pair, 0), Depth.proj("int", d)), T.Int)
+
+
+def spec_rdepth(eng, st, axes, a):
+    import z3
+    from vf.core import SV
+    mt = axes.ty
+    d = z3.If(z3.Select(mt.dom(axes.t), a.t), z3.Select(mt.valarr(axes.t), a.t), Depth.inj("int", z3.IntVal(0)))
+    pair = Depth.proj("pair", d)
+    return SV(z3.If(Depth.is_("pair", d), T.Tup(T.Int, T.Int).get(pair, 1), Depth.proj("int", d)), T.Int)
+
+
+def spec_has_boundary(eng, st, boundary, a):
+    import z3
+    from vf.core import SV
+    mt = boundary.ty
+    return SV(z3.And(z3.Select(mt.dom(boundary.t), a.t), z3.Select(mt.valarr(boundary.t), a.t) != z3.StringVal("none")), T.Bool)
+
+
 def setup(eng):
+    from vf.core import FuncVal
+    eng.spec_funcs["has_boundary"] = spec_has_boundary
+    eng.funcs["_overlap_internal_chunks"] = FuncVal("_overlap_internal_chunks", "contract", overlap_internal_chunks)
+    eng.funcs["trim_chunks"] = FuncVal("trim_chunks", "contract", trim_chunks)
+    eng.mutable_records.add("ArrayLike")
+    eng.spec_funcs["ldepth"] = spec_ldepth
+    eng.spec_funcs["rdepth"] = spec_rdepth
     eng.funcs.update(LEMMA_FUNCS)
